@@ -73,6 +73,8 @@ GENERAL_PDDL_KEYWORDS = {
     "exists",
     "scale-up",
     "scale-down",
+    "assign",
+    "total-cost",
     "increase",
     "decrease",
     "derived",
